@@ -477,6 +477,99 @@ func TestVerif(t *testing.T) {
     return None
 
 
+def battery_value_history(seed, which="scalar"):
+    """hidden per-object state in Scalar / field.Element (flags, memoised encodings): ONE object is the receiver of every
+    ordered pair of producers and is then read (Bytes twice, Equal / IsNegative); every reading against the big-integer oracle"""
+    rng = random.Random(seed)
+    if which == "scalar":
+        M = L
+        a, b, c = rng.randrange(1, L), rng.randrange(1, L), rng.randrange(1, L)
+        wide = rng.randrange(2**512)
+        raw = rng.randrange(2**256)
+        cl = int.from_bytes(bytes([raw.to_bytes(32, "little")[0] & 248]) + raw.to_bytes(32, "little")[1:31] + bytes([(raw.to_bytes(32, "little")[31] & 63) | 64]), "little")
+        h = lambda v, n=32: v.to_bytes(n, "little").hex()
+        prods = [
+            ("SetCanonicalBytes", 'v.SetCanonicalBytes(hx("%s"))' % h(a), a),
+            ("SetUniformBytes", 'v.SetUniformBytes(hx("%s"))' % h(wide, 64), wide % L),
+            ("SetBytesWithClamping", 'v.SetBytesWithClamping(hx("%s"))' % h(raw), cl % L),
+            ("Add", 'v.Add(sc("%s"), sc("%s"))' % (h(a), h(b)), (a + b) % L),
+            ("Multiply", 'v.Multiply(sc("%s"), sc("%s"))' % (h(a), h(b)), a * b % L),
+            ("Negate", 'v.Negate(sc("%s"))' % h(c), (-c) % L),
+            ("Invert", 'v.Invert(sc("%s"))' % h(c), pow(c, L - 2, L)),
+            ("Set", 'v.Set(sc("%s"))' % h(b), b),
+            ("MultiplyAdd", 'v.MultiplyAdd(sc("%s"), sc("%s"), sc("%s"))' % (h(a), h(b), h(c)), (a * b + c) % L),
+            ("Subtract", 'v.Subtract(sc("%s"), sc("%s"))' % (h(a), h(b)), (a - b) % L),
+        ]
+        cases = ['{"%s then %s", func(v *Scalar) { %s; %s }, "%s"},' % (n1, n2, c1, c2, h(w2)) for n1, c1, _ in prods for n2, c2, w2 in prods]
+        code = '''package edwards25519
+import ("testing"; "encoding/hex")
+func hx(s string) []byte { b, _ := hex.DecodeString(s); return b }
+func sc(s string) *Scalar { x, err := new(Scalar).SetCanonicalBytes(hx(s)); if err != nil { panic(err) }; return x }
+type vh struct { name string; f func(v *Scalar); want string }
+func TestVerif(t *testing.T) {
+ cases := []vh{
+%s
+ }
+ for _, c := range cases {
+  v := NewScalar(); c.f(v)
+  if got := hex.EncodeToString(v.Bytes()); got != c.want { t.Fatalf("HIT one Scalar as receiver, %%s: Bytes = %%s, expected %%s", c.name, got, c.want) }
+  if got := hex.EncodeToString(v.Bytes()); got != c.want { t.Fatalf("HIT one Scalar as receiver, %%s: second Bytes = %%s, expected %%s", c.name, got, c.want) }
+  if v.Equal(sc(c.want)) != 1 || sc(c.want).Equal(v) != 1 { t.Fatalf("HIT one Scalar as receiver, %%s: not Equal to the expected value", c.name) }
+  w := new(Scalar).Add(v, NewScalar()); if hex.EncodeToString(w.Bytes()) != c.want { t.Fatalf("HIT one Scalar as receiver, %%s: v + 0 encodes differently", c.name) }
+ }
+}
+''' % "\n".join(cases)
+        rc, out = native.go_test(code)
+    else:
+        P = ref.P
+        a, b, c = rng.randrange(1, P), rng.randrange(1, P), rng.randrange(1, P)
+        wide = rng.randrange(2**512)
+        h = lambda v, n=32: (v % (1 << (8 * n))).to_bytes(n, "little").hex()
+        absv = lambda x: x % P if (x % P) % 2 == 0 else (-x) % P
+        prods = [
+            ("SetBytes", 'v.SetBytes(hx("%s"))' % h(a), a),
+            ("SetWideBytes", 'v.SetWideBytes(hx("%s"))' % h(wide, 64), wide % P),
+            ("Add", 'v.Add(el("%s"), el("%s"))' % (h(a), h(b)), (a + b) % P),
+            ("Subtract", 'v.Subtract(el("%s"), el("%s"))' % (h(a), h(b)), (a - b) % P),
+            ("Multiply", 'v.Multiply(el("%s"), el("%s"))' % (h(a), h(b)), a * b % P),
+            ("Square", 'v.Square(el("%s"))' % h(c), c * c % P),
+            ("Negate", 'v.Negate(el("%s"))' % h(c), (-c) % P),
+            ("Invert", 'v.Invert(el("%s"))' % h(c), pow(c, P - 2, P)),
+            ("Absolute", 'v.Absolute(el("%s"))' % h(b), absv(b)),
+            ("One", "v.One()", 1), ("Zero", "v.Zero()", 0),
+            ("Select", 'v.Select(el("%s"), el("%s"), 1)' % (h(a), h(b)), a),
+            ("Mult32", 'v.Mult32(el("%s"), 121666)' % h(a), a * 121666 % P),
+            ("Set", 'v.Set(el("%s"))' % h(b), b),
+        ]
+        cases = ['{"%s then %s", func(v *Element) { %s; %s }, "%s", %d},' % (n1, n2, c1, c2, h(w2), w2 & 1) for n1, c1, _ in prods for n2, c2, w2 in prods]
+        code = '''package field
+import ("testing"; "encoding/hex")
+func hx(s string) []byte { b, _ := hex.DecodeString(s); return b }
+func el(s string) *Element { e, err := new(Element).SetBytes(hx(s)); if err != nil { panic(err) }; return e }
+type vh struct { name string; f func(v *Element); want string; neg int }
+func TestVerif(t *testing.T) {
+ cases := []vh{
+%s
+ }
+ for _, c := range cases {
+  v := new(Element); c.f(v)
+  if got := hex.EncodeToString(v.Bytes()); got != c.want { t.Fatalf("HIT one Element as receiver, %%s: Bytes = %%s, expected %%s", c.name, got, c.want) }
+  if got := hex.EncodeToString(v.Bytes()); got != c.want { t.Fatalf("HIT one Element as receiver, %%s: second Bytes = %%s, expected %%s", c.name, got, c.want) }
+  if v.IsNegative() != c.neg { t.Fatalf("HIT one Element as receiver, %%s: IsNegative = %%d", c.name, v.IsNegative()) }
+  if v.Equal(el(c.want)) != 1 || el(c.want).Equal(v) != 1 { t.Fatalf("HIT one Element as receiver, %%s: not Equal to the expected value", c.name) }
+  w := new(Element).Add(v, new(Element).Zero()); if hex.EncodeToString(w.Bytes()) != c.want { t.Fatalf("HIT one Element as receiver, %%s: v + 0 encodes differently", c.name) }
+ }
+}
+''' % "\n".join(cases)
+        rc, out = native.go_test(code, pkg="field")
+    if rc != 0:
+        hit = [l_ for l_ in out.splitlines() if "HIT " in l_]
+        if hit:
+            return dict(what=hit[0].split("HIT ", 1)[1][:400], op="value history (%s)" % which)
+        raise RuntimeError("value history battery did not run: " + out[-600:])
+    return None
+
+
 def battery_history_after_panic(seed):
     """'identical output no matter what was computed before' where the earlier call *panicked* (documented misuse, recovered
     by the caller) or failed: in one process, a multi-scalar call with an uninitialized point at a late index / mismatched
